@@ -560,6 +560,11 @@ def run(stmts, env):
             getattr(ev(st.value.func.value, env), st.value.func.attr)(*_args(st.value.args, env))
             continue
         if isinstance(st, ast.Expr) and isinstance(st.value, ast.Call) and isinstance(st.value.func, ast.Attribute) \
+                and st.value.func.attr in ('update', 'discard', 'difference_update') and not st.value.keywords \
+                and isinstance(st.value.func.value, ast.Name) and isinstance(env.get(st.value.func.value.id), set):
+            getattr(env[st.value.func.value.id], st.value.func.attr)(*[set(a) if not isinstance(a, (int, str)) else a for a in _args(st.value.args, env)])
+            continue      # a set the code itself created, updated in place
+        if isinstance(st, ast.Expr) and isinstance(st.value, ast.Call) and isinstance(st.value.func, ast.Attribute) \
                 and st.value.func.attr not in ('append', 'extend', 'reverse', 'insert', 'add'):
             ev(st.value, env)      # stub method of a stand-in object (anything else raises ModelError)
             continue
